@@ -93,6 +93,8 @@ def solve_vc(vc: VC, timeout_ms: int, known_open: Optional[List[str]] = None) ->
         "backend": "z3",
     }
     s = z3.Solver()
+    if vc.kind != "vc":
+        timeout_ms = min(timeout_ms, 5000)  # guards are cheap or inconclusive
     s.set("timeout", timeout_ms)
     for h in vc.hyps:
         s.add(h)
